@@ -42,6 +42,18 @@ pub fn fnv_after_zeros(z: u64) -> u32 {
     FNV_INIT.wrapping_mul(pow_u32(FNV_PRIME, z))
 }
 
+/// FNV-1 over a segmented input (zero runs in closed form).
+pub fn fnv32_segs(segs: &[Seg]) -> u32 {
+    let mut h = FNV_INIT;
+    for s in segs {
+        match s {
+            Seg::Bytes(b) => h = b.iter().fold(h, |h, &c| fnv_step(h, c)),
+            Seg::Zeros(n) => h = h.wrapping_mul(pow_u32(FNV_PRIME, *n)),
+        }
+    }
+    h
+}
+
 /// Rolling hash by its closed formula over a 7-byte window (oldest byte first, zero padded
 /// on the left when fewer than seven bytes exist).
 pub fn roll_def(w: &[u8; 7]) -> u32 {
